@@ -1,4 +1,4 @@
-#!/bin/sh
+#!/bin/bash
 # Faster variant of run_seeds.sh for development: every kept seeded change is applied to its own scratch worktree of /repo
 # (git worktree under /tmp, removed afterwards) and the property's quick check runs against that tree through VERIF_REPO.
 # /repo itself is not touched.  usage: tools/run_seeds_parallel.sh [jobs] [name-filter]
